@@ -20,7 +20,9 @@
         (before the handler is installed a SIGINT kills the runner silently; after the loop it
          is ignored; when both a tick/exit and the signal are ready Go's select picks any)
      waiter goroutine of the daemon (command.go:276-282): after cmd.Wait()  W same (ExtraData := nil)
-     Cancel (command.go:334-360): no recorded Pid -> nothing.  Otherwise SIGINT to the runner
+     Cancel (command.go): cancels the unit's context and waits for a launch in progress (/repo
+        commit a6deca5: the runner is launched under a lock, and not at all once the context is
+        cancelled); then: no recorded Pid -> nothing.  Otherwise SIGINT to the runner
         ("already finished" when it has been reaped -> nothing), proc.Wait(), then
         W cancel = State := Canceled unless the record says Succeeded   (/repo commit 1beb8d4; the
         pinned tree wrote Canceled unconditionally: [wf_cancel_pinned], [run true]).
@@ -162,13 +164,20 @@ Fixpoint set_nth {A} (n : nat) (x : A) (l : list A) : list A :=
   | h :: t, S n' => h :: set_nth n' x t
   end.
 
+(* the unit's context is cancelled by the first statement of every Cancel/Release (CancelContext);
+   a restarted daemon builds new unit objects (the list of cancels is emptied then) *)
+Definition ctx_cancelled (w : world) : bool := match w_cancels w with [] => false | _ => true end.
+
+Definition launching (s : spc) : bool := match s with SSpawned => true | _ => false end.
+
 Definition step_cancel (pinned : bool) (i : nat) (w : world) : world :=
   match nth_error (w_cancels w) i with
   | None => w
   | Some c =>
     let goto pc w' := set_cancels (set_nth i (mkCanc (k_kind c) pc) (w_cancels w')) w' in
     match k_pc c with
-    | CCheck => if w_pidset w then goto CSignal w else goto (after_cancel (k_kind c)) w
+    | CCheck => if launching (w_sub w) then w               (* waits for the launch in progress *)
+                else if w_pidset w then goto CSignal w else goto (after_cancel (k_kind c)) w
     | CSignal =>
       match w_run w with
       | RGone true => goto (after_cancel (k_kind c)) w                  (* "process already finished" *)
@@ -195,6 +204,7 @@ Definition step (pinned : bool) (a : action) (w : world) : world :=
                else set_sub SStarting (W Daemon KPending0 wf_pending0 w)
     | SStarting => set_sub SLaunch (W Daemon KPending0 wf_pending0 w)
     | SLaunch => if fail then set_sub SStartErr (W Daemon KFailed0 wf_failed0 w)
+                 else if ctx_cancelled w then set_sub SStartErr w   (* runCommand refuses: not launched *)
                  else set_sub SSpawned (set_run RStart w)
     | SStartErr => set_sub SDone (W Daemon KFailed0 wf_failed0 w)
     | SSpawned => set_sub SDone (set_pidset true (W Daemon KSame (fun r => r) w))
